@@ -104,6 +104,27 @@ class PoolLike:
         return out
 
 
+class RichPool(PoolLike):
+    """like multiprocessing.Pool: an ordered map plus the unordered / lazy variants a caller must NOT substitute"""
+
+    def __init__(self, seed):
+        super().__init__("shuffled", seed)
+
+    def imap(self, f, xs, chunksize=1):
+        return iter(self.map(f, xs))
+
+    def imap_unordered(self, f, xs, chunksize=1):
+        out = [f(x) for x in xs]
+        self.rng.shuffle(out)
+        return iter(out)
+
+    def map_async(self, f, xs):
+        raise RuntimeError("map_async result objects are not lists")
+
+    def starmap(self, f, xs):
+        return [f(*x) for x in xs]
+
+
 def one(cfg, strategy, seed, blobs):
     from tempest import Sampler
     c = Counter(blobs)
@@ -112,7 +133,9 @@ def one(cfg, strategy, seed, blobs):
         like, kw["vectorize"] = c.vec, True
     else:
         like = c.scalar
-        if strategy != "scalar":
+        if strategy == "richpool":
+            kw["pool"] = RichPool(seed)
+        elif strategy != "scalar":
             kw["pool"] = PoolLike(strategy, seed)
     s = Sampler(lambda u: 6 * u - 3, like, n_dim=2, n_particles=10, random_state=seed,
                 blobs_dtype=float if blobs else None, **kw)
@@ -133,7 +156,7 @@ def sweep(run, tier, rng):
     for ci, cfg in enumerate(cfgs):
         for blobs in ([False, True] if tier != "quick" or ci == 0 else [False]):
             seed = rng.randrange(10 ** 6)
-            strategies = ["scalar", "inorder", "reversed", "shuffled"] + ([] if blobs else ["vectorize"])
+            strategies = ["scalar", "inorder", "reversed", "shuffled", "richpool"] + ([] if blobs else ["vectorize"])
             res = {}
             for st in strategies:
                 what = dict(cfg=cfg, blobs=blobs, strategy=st, random_state=seed)
